@@ -280,7 +280,7 @@ fn main() {
         Some("chain") => cmd_chain(&a),
         Some("vmcost") => cmd_vmcost(&a),
         Some("deepvalchild") => vm::deepval_child(a.u64("a", 1) as u16, a.u64("b", 1000) as u16),
-        Some("deepchild") => vm::deep_child(a.u64("k", 1000) as usize),
+        Some("deepchild") => vm::deep_child(a.u64("k", 1000) as usize, a.u64("flat", 0) == 1),
         _ => {
             eprintln!("usage: harness <vm|...> [--key value]...");
             std::process::exit(2);
